@@ -8,6 +8,7 @@
 #include <hgraph/runtime/push_source_node.h>
 #include <hgraph/types/metadata/value_plan_factory.h>
 #include <hgraph/types/value/value_builder.h>
+#include <hgraph/lib/std/value_util.h>
 
 namespace hv {
 
@@ -100,6 +101,16 @@ void apply_op(const TSOutputView &o, DateTime t, const JV &op) {
         Value whole = build_partial_value(o.schema(), op.at("v"));
         if (op.bool_or("move", false)) (void)o.begin_mutation(t).move_value_from(std::move(whole));
         else (void)o.begin_mutation(t).copy_value_from(whole.view());
+    }
+    else if (k == "setd") {
+        // whole-dictionary write (TSD[int, TS[int]]): the new contents replace the old ones; copy or move flavour
+        std::vector<std::pair<Int, Int>> kv;
+        for (auto &e : op.at("v").a) kv.emplace_back(Int{e.a.at(0).as_int()}, Int{e.a.at(1).as_int()});
+        Value whole = stdlib::make_map<Int, Int>(kv.begin(), kv.end());
+        auto d = o.as_dict();
+        auto m = d.begin_mutation(t);
+        if (op.bool_or("move", false)) (void)m.move_value_from(std::move(whole));
+        else (void)m.copy_value_from(whole.view());
     }
     else if (k == "set") { (void)o.begin_mutation(t).copy_value_from(value_from_json(o.schema()->value_type, op.at("v")).view()); }
     else if (k == "inval") { (void)o.begin_mutation(t).invalidate(); }
